@@ -87,6 +87,8 @@ class Ctx:
         a = self.__dict__.get("args", {})
         if "*" + name in a:
             return a["*" + name].t
+        if "**" + name in a:
+            return a["**" + name].t
         if name in a:
             return a[name].t
         raise AttributeError(name)
@@ -761,6 +763,8 @@ class HeapExec(Exec):
             compatible = {"ref": ("ref", "aseq", "listref"), "aseq": ("aseq",), "listref": ("listref",),
                           "qseq": ("qseq", "gen"), "fn": ("fn",), "optfn": ("optfn",), "optint": ("optint",),
                           "int": ("int",), "bool": ("bool",), "any": ("any",), "optiter": ("optiter", "ref", "aseq")}
+            if k == "any":
+                continue
             if k in compatible and ak not in compatible[k]:
                 raise Unsupported("argument %s of %s: a value of kind %s where the contract expects %s" % (n, spec.name, ak, k))
         for n, k in spec.params:
@@ -860,6 +864,8 @@ def verify_spec(spec):
     formal = fi.params()
     if fi.node.args.vararg is not None:
         formal = formal + ["*" + fi.node.args.vararg.arg]
+    if fi.node.args.kwarg is not None:
+        formal = formal + ["**" + fi.node.args.kwarg.arg]
     if [n for n, _ in spec.params] != formal:
         return fi, [], [StructFailure(fi.ident, "parameters %s differ from the contract's %s"
                                       % (formal, [n for n, _ in spec.params]))]
@@ -919,7 +925,23 @@ def _judge_exits(spec, world, ex, ctx, exits):
             ex.oblig(p, "SAFE", "undeclared-exit:%s" % x.label, BoolVal(False),
                      note="an exit the contract does not foresee must be unreachable")
             continue
-        o = cands[0]
+        if len(cands) > 1 and all(c_.when is not None for c_ in cands):
+            # several conditional outcomes of the same kind: exactly the one whose condition holds applies
+            ex.oblig(p, "RAISES", "some-outcome-applies:%s" % "|".join(c_.label for c_ in cands),
+                     Or(*[c_.when(ctx) for c_ in cands]), props=spec.props)
+            for c_ in cands:
+                q_ = p.fork(c_.when(ctx), "case:" + c_.label)
+                if feasible(q_.pc):
+                    _judge_one(spec, world, ex, ctx, Exit(x.kind, q_, x.value, x.exc), c_, value)
+            continue
+        _judge_one(spec, world, ex, ctx, x, cands[0], value)
+    return
+
+
+def _judge_one(spec, world, ex, ctx, x, o, value):
+    p = x.path
+    ctx.final_path = p
+    if True:
         ex.oblig(p, "CANARY", "exit-reachable:%s" % o.label, BoolVal(False),
                  note="vacuity guard: the path condition of this exit must not be refutable")
         if o.when is not None:
@@ -935,18 +957,18 @@ def _judge_exits(spec, world, ex, ctx, exits):
             value = x.exc.payload
             if value is None or not isinstance(value, V) or value.k != "int":
                 ex.oblig(p, "KIND", "%s/witness" % o.label, BoolVal(False), note="exception carries no witness")
-                continue
+                return
         elif o.res.startswith("wit"):
             # ghost witness of an exit taken inside loop #k: the iteration index on this path
             value = vint(p.extra[o.res]) if o.res in p.extra else None
             if value is None:
                 ex.oblig(p, "KIND", "%s/witness" % o.label, BoolVal(False), note="exit is not inside loop %s" % o.res)
-                continue
+                return
         if o.res != "none" and o.res != "exc" and x.kind == "return":
             if value is None or not world.kind_ok(o.res, value):
                 ex.oblig(p, "KIND", "%s/result-kind" % o.label, BoolVal(False),
                          note="result %r is not of the contract's kind %s" % (value, o.res))
-                continue
+                return
         extra = []
         if o.value is not None and x.kind == "return":
             fv = o.value(ctx)
